@@ -351,7 +351,7 @@ Proof.
   assert (Lv : length (in_voa_chs a sel) = length sel).
   { unfold in_voa_chs. destruct (a_in_voa a); [apply map_length | reflexivity]. }
   set (chs := in_voa_chs a sel) in *. clearbody chs.
-  destruct chs as [|c0 [|c1 t]]; try discriminate.
+  destruct chs as [|c0 t]; try discriminate.
   injection H as <-. do 4 eexists. split; [reflexivity|].
   unfold edfa_nf, edfa_gp, grid_interp. rewrite !map_length. split; [exact Lv|]. split.
   - rewrite gain_profile_length; rewrite !map_length; [exact Lv | reflexivity].
@@ -442,12 +442,14 @@ Qed.
 
 (* when the first estimate has (almost) no ripple/tilt the profile returned is the normalised first estimate *)
 Theorem flat_profile_mean : forall (a : ampR) freqs pin dgt ripple (pin_db eff : R),
-  (2 <= length dgt)%nat -> length ripple = length dgt ->
+  (1 <= length dgt)%nat -> length ripple = length dgt ->
   Rabs (@deltax_of NumR (g1st_of a freqs dgt ripple)) <= 5 / 100 ->
   @nmean NumR (map db2linR (gain_profile a freqs pin dgt ripple pin_db eff)) = db2linR eff.
 Proof.
   intros a freqs pin dgt ripple pin_db eff H2 HL Hd. unfold gain_profile.
   destruct dgt as [|d0 [|d1 t]]; cbn [length] in H2; try lia.
+  { (* a single channel: the profile is [effective_gain] *)
+    unfold nmean, nlen, nsum. cbn [map fold_right length Z.of_nat Pos.of_succ_nat]. numR. lra. }
   assert (Hc : (@nleb NumR (@nabs NumR (@deltax_of NumR (g1st_of a freqs (d0 :: d1 :: t) ripple))) (@dec NumR 5 (-2))) = true).
   { numR. unfold Rleb. destruct (Rle_dec _ _) as [|Hn]; [reflexivity|]. exfalso. apply Hn.
     unfold dec. cbn. numR. lra. }
